@@ -6,7 +6,10 @@ Tie to the source (magicbot/magic_tunable.py as it is in $VERIF_REPO now):
     is created with type(), bound when the default fits, and the type string
     read back from NetworkTables is compared with decl_topic inside Coq;
   * histories: generated classes (1-6 tunables over the whole bindable grid,
-    subtables, writeDefault both ways, inherited tunables, a private one), 1-3
+    subtables, writeDefault both ways, inherited tunables, a private one; class
+    HIERARCHIES in which a subclass REDEFINES tunables of its bases -- other
+    default / writeDefault / subtable / type, plain attributes over tunables;
+    the model resolves dir(cls)/getattr(cls, n) itself: Model.class_members), 1-3
     instances under all owner kinds, pre-published topics, random
     interleavings of attribute writes/reads with writes/reads of an
     INDEPENDENT publisher/subscriber on the same NT instance, re-binding;
@@ -1535,10 +1538,10 @@ def shrink_case(mt, case, fresh_tag, budget=220):
                 best = cand
         # empty classes of the chain / an empty mixin
         hb = case_hier(best, ci)
-        if budget > 0 and (any(not b for b in hb["levels"][:-1]) or hb.get("mixin") == []):
+        if budget > 0 and (any(not b for b in hb["levels"]) or hb.get("mixin") == []):
             cand = json.loads(json.dumps(best))
             hc = cand["hier"][ci]
-            hc["levels"] = [b for b in hc["levels"][:-1] if b] + [hc["levels"][-1]]
+            hc["levels"] = [b for b in hc["levels"] if b] or [[]]
             if hc.get("mixin") == []:
                 hc["mixin"] = None
             budget -= 1
@@ -1599,6 +1602,31 @@ def shrink_case(mt, case, fresh_tag, budget=220):
                 v = failing(cand)
                 if v is not None and v["fingerprint"] == fp:
                     best = cand
+    # instances no operation mentions, classes no instance uses (renumbered)
+    used = sorted(set(op[1] for op in best["ops"] if op[0] in ("setup", "pyw", "pyr", "truth")))
+    if budget > 0 and used and len(used) < len(best["insts"]):
+        cand = json.loads(json.dumps(best))
+        ren = {i: n for n, i in enumerate(used)}
+        cand["insts"] = [best["insts"][i] for i in used]
+        for op in cand["ops"]:
+            if op[0] in ("setup", "pyw", "pyr", "truth"):
+                op[1] = ren[op[1]]
+        budget -= 1
+        v = failing(cand)
+        if v is not None and v["fingerprint"] == fp:
+            best = cand
+    usedc = sorted(set(best["insts"]))
+    if budget > 0 and len(usedc) < len(best["classes"]):
+        cand = json.loads(json.dumps(best))
+        ren = {c: n for n, c in enumerate(usedc)}
+        for field in ("classes", "split", "src", "tkind", "hier"):
+            if cand.get(field) is not None:
+                cand[field] = [cand[field][c] for c in usedc]
+        cand["insts"] = [ren[c] for c in best["insts"]]
+        budget -= 1
+        v = failing(cand)
+        if v is not None and v["fingerprint"] == fp:
+            best = cand
     c2 = retag(best, fresh_tag())
     return c2, oracle_case(c2, exec_case(mt, c2))
 
@@ -2003,6 +2031,9 @@ def run(ctx):
         "a string annotation is identified with the expression it denotes (its names resolve in the module namespace "
         "typing.get_type_hints evaluates it in; unresolvable names, annotations inherited from a base class and a "
         "quoted subscript tunable['H'](..) are outside the generated domain); "
+        "a class hierarchy enters the model as its MRO [vars(k) for k in cls.__mro__] (chain + mixin generated; C3 linearisation is not "
+        "computed by the model); an un-annotated redefinition whose base annotates the same name with ANOTHER type is outside the generated "
+        "domain (it inherits the base's hint through typing.get_type_hints, see notes_c09.md); "
         "floats restricted to multiples of 1/64, strings to ASCII; pyntcore's StructArrayEntry.get() returns the "
         "entry default for an EMPTY stored array (observed, not /repo code): empty struct arrays are only generated as defaults")
     ctx.prove()
@@ -2153,7 +2184,9 @@ def run(ctx):
         "rule": "histories: 1-2 generated classes (type(), or the source text of a module exec'd, half of those with "
                 "`from __future__ import annotations`) with 1-6 tunables over {bool,int,float,str,bytes,struct x2} x "
                 "{scalar,array}, hints in 5 syntactic forms x {evaluated, postponed, quoted, quoted argument}, subtables, writeDefault True/False/absent, inherited and "
-                "private tunables; owner classes ordinary / with __len__ / with __bool__ / list subclass (instances created "
+                "private tunables; 40% of the classes are hierarchies (chain of 1-3 classes, optional mixin) in which names are REDEFINED: the tunable a class "
+                "resolves a name to shadows declarations of the same name in its bases (other default / writeDefault / subtable / type), plain attributes "
+                "shadow tunables and vice versa, NT reads at the keys of shadowed definitions; owner classes ordinary / with __len__ / with __bool__ / list subclass (instances created "
                 "falsy, truthiness changing inside the history); 1-3 instances under components/autonomous/robot/other prefixes, pre-published topics, "
                 "6-27 interleaved PyWrite/PyRead/NtWrite/NtRead/re-Setup/truthiness ops, closing reads; non-trivial = >=2 setups and "
                 "all four of PyWrite, PyRead, NtWrite, NtRead occur; distinct up to the per-case name tag",
